@@ -195,3 +195,11 @@ def o6(ctx):
 
 
 RULES.append(o6)
+
+
+@rule("O7", doc="source ids and class ids are kept apart (C02.P14): a node that arrived through a union is processed under its own source id, so what is derived does not depend on which class a union kept")
+def o7(ctx):
+    c02.p14(ctx)
+
+
+RULES.append(o7)
